@@ -243,6 +243,125 @@ def r_transforms(rule, root=None):
         rule.bad("RepeatX|shape", "RepeatX must remap_xyz once", A.where(LIB, fn))
 
 
+
+def _cond_excludes_zero(c, var):
+    """does the condition text (spaces removed) imply var != 0 by being `var > 0`"""
+    c = c.replace(" ", "")
+    while c.startswith("(") and c.endswith(")"):
+        c = c[1:-1]
+    zero = r"(0\.0|0\.|0\.0f32|0f32|0\.0_f32)"
+    import re
+
+    pos = [r"%s>%s" % (re.escape(var), zero), r"%s<%s" % (zero, re.escape(var)), r"!\(?%s<=%s\)?" % (re.escape(var), zero), r"!\(?%s>=%s\)?" % (zero, re.escape(var))]
+    return any(re.fullmatch(x, c) for x in pos)
+
+
+def r_blend(rule, root=None):
+    """Blend: smooth minimum `min(a, b) - max(r - |a - b|, 0)^2 / (4 r)` for a positive radius, the plain
+    union otherwise.  The smooth formula divides by the radius, so the branch that uses it must be guarded
+    by `radius > 0` - at exactly 0 it is inf * 0 = NaN everywhere."""
+    fn = from_fn("Blend", root=root)
+    ifs = [n for n in A.find(fn["body"], "If")]
+    env = S.SymEnv()
+    try:
+        if len(ifs) != 1:
+            # branch-free form: must equal the smooth minimum and be safe at radius 0 - not expressible, so demand the guard
+            rule.bad("Blend|guard", "Blend must select between the smooth formula (radius > 0) and the plain minimum", A.where(LIB, fn))
+            return
+        node = ifs[0]
+        c = str(A.ftxt(A.strip(node["cond"])))
+        then_e, else_e = node["then"], node.get("else")
+        pos_first = _cond_excludes_zero(c, "v.radius")
+        neg_first = _cond_excludes_zero("!(%s)" % c, "v.radius") or _cond_excludes_zero(("!" + c) if not c.startswith("!") else c[1:], "v.radius")
+        if not pos_first and not neg_first:
+            rule.bad("Blend|guard", "Blend chooses its smooth formula under `%s`; the formula divides by 4 * radius, so the guard must be exactly radius > 0 (at radius = 0 it is inf * 0 = NaN at every point)" % c, A.where(LIB, node))
+            return
+        smooth, plain = (then_e, else_e) if pos_first else (else_e, then_e)
+
+        def val(e):
+            ev = S.SymEnv()
+            # lets in front of the branch are shared by both arms
+            outer = [s_ for s_ in fn["body"]["stmts"] if s_.get("k") == "Let"]
+            S.bind_lets(outer, ev)
+            stmts = e.get("stmts") if e.get("k") == "Block" else None
+            if stmts is None and e.get("k") in ("Block",):
+                stmts = []
+            if stmts is None:
+                return S.to_sym(e, ev), ev
+            tail = S.bind_lets(stmts, ev)
+            return S.to_sym(tail, ev), ev
+
+        got_s, ev1 = val(smooth)
+        got_p, ev2 = val(plain)
+        w_s = L("Min(a, b) - Max(radius - Abs(a - b), 0)**2 / (4*radius)", ev1)
+        w_p = L("Min(a, b)", ev2)
+        if not S.equal(got_s, w_s):
+            rule.bad("Blend|smooth", "Blend's smooth branch builds `%s`; the documented quadratic blend is min(a, b) - max(r - |a - b|, 0)^2 / (4 r)" % got_s, A.where(LIB, fn))
+        elif not S.equal(got_p, w_p):
+            rule.bad("Blend|plain", "Blend's fallback builds `%s`, expected min(a, b)" % got_p, A.where(LIB, fn))
+        else:
+            rule.ok("Blend = min(a, b) - max(r - |a - b|, 0)^2 / (4 r) for r > 0 (strict), min(a, b) otherwise", file=LIB, line=fn["ln"])
+    except S.Untranslatable as e:
+        rule.bad("Blend|untranslatable", "Blend: expression no longer closed-form (%s)" % e, A.where(LIB, fn))
+
+
+def r_reflect_xy(rule, root=None):
+    """ReflectXY is documented as the reflection about the X = Y line: with no offset a point (x, y, z) is
+    looked up at (y, x, z), i.e. the mirror plane's normal is a positive or negative multiple of (-1, 1, 0)"""
+    fn = from_fn("ReflectXY", root=root)
+    st = [s_ for s_ in A.find(fn["body"], "Struct") if A.path_segs(s_["path"])[-1] == "Plane"]
+    outer = [s_ for s_ in A.find(fn["body"], "Struct") if A.path_segs(s_["path"])[-1] == "Reflect"]
+    if len(st) != 1 or len(outer) != 1:
+        rule.bad("ReflectXY|shape", "ReflectXY must be Reflect { shape, plane: Plane { axis, offset } }", A.where(LIB, fn))
+        return
+    f = {x["name"]: x["e"] for x in st[0]["fields"]}
+    o = {x["name"]: A.ftxt(x["e"]) for x in outer[0]["fields"]}
+    vec = [c for c in A.find(f.get("axis"), "Call") if (A.path_segs(c["func"]) or [])[-2:] == ["Vec3", "new"]] if f.get("axis") is not None else []
+    if not vec and f.get("axis") is not None and A.ident(A.strip(f["axis"])):
+        lets = [s_ for s_ in A.find(fn["body"], "Let") if A.binding_name(s_["pat"]) == A.ident(A.strip(f["axis"])) and s_.get("init") is not None]
+        if len(lets) == 1:
+            vec = [c for c in A.find(lets[0]["init"], "Call") if (A.path_segs(c["func"]) or [])[-2:] == ["Vec3", "new"]]
+    comps = [A.lit_value(a) for a in vec[0]["args"]] if len(vec) == 1 else []
+    if len(comps) != 3 or any(c is None for c in comps):
+        rule.bad("ReflectXY|axis", "ReflectXY's mirror normal must be a literal Vec3", A.where(LIB, fn))
+        return
+    nx, ny, nz = [sp.nsimplify(c) for c in comps]
+    n2 = nx * nx + ny * ny + nz * nz
+    x, y, z = sp.symbols("x y z", real=True)
+    if n2 == 0:
+        rule.bad("ReflectXY|axis", "ReflectXY's mirror normal is the zero vector", A.where(LIB, fn))
+        return
+    d = (nx * x + ny * y + nz * z) / n2
+    img = (sp.simplify(x - 2 * d * nx), sp.simplify(y - 2 * d * ny), sp.simplify(z - 2 * d * nz))
+    if img != (y, x, z):
+        rule.bad("ReflectXY|axis", "ReflectXY mirrors about the plane normal to (%s, %s, %s), which sends (x, y, z) to %s; the reflection about the X = Y line is (y, x, z)" % (nx, ny, nz, img), A.where(LIB, fn))
+    elif str(A.ftxt(f.get("offset"))) != "v.offset" or o.get("shape") != "v.shape":
+        rule.bad("ReflectXY|fields", "ReflectXY must forward v.shape and v.offset", A.where(LIB, fn))
+    else:
+        rule.ok("ReflectXY sends (x, y, z) to (y, x, z): normal (%s, %s, %s)" % (nx, ny, nz), file=LIB, line=fn["ln"])
+
+
+COVERED = set("""Circle Rectangle Sphere Box Union Blend Intersection Inverse Difference Move Scale ScaleUniform Reflect
+ReflectX ReflectXY ReflectY ReflectZ Rotate RotateX RotateY RotateZ RevolveY ExtrudeZ LoftZ RepeatX""".split())
+
+
+def r_inventory(rule, root=None):
+    """every shape the library converts into a Tree has a closed-form rule here (a new shape is listed as unanalysed)"""
+    have = set()
+    for i in A.find_impls(LIB, self_ty="Tree", root=root):
+        t = (i.get("trait") or "").replace(" ", "")
+        if t.startswith("From<") and t.endswith(">"):
+            have.add(t[5:-1])
+    for n in sorted(have):
+        if n in COVERED:
+            rule.ok("From<%s> for Tree has a rule" % n)
+        else:
+            rule.skip("From<%s> for Tree" % n, "new shape without a closed-form rule")
+    miss = COVERED - have
+    if miss:
+        rule.lost("impl From<%s> for Tree" % sorted(miss)[0])
+
+
 class ShapeSym:
     """compose the transform combinators of a From<..> body symbolically: a shape is a map
     from a point to S(point'); Move and remap_xyz substitute coordinates"""
@@ -435,6 +554,10 @@ def run(ctx):
     ctx.guarded(r, r_named_constants)
     r = ctx.rule("R2", "primitives and CSG combinators equal their documented closed forms", 9)
     ctx.guarded(r, r_primitives)
+    r = ctx.rule("R2b", "Blend is the guarded smooth minimum; ReflectXY swaps x and y; every shape has a rule", 27)
+    ctx.guarded(r, r_blend)
+    ctx.guarded(r, r_reflect_xy)
+    ctx.guarded(r, r_inventory)
     r = ctx.rule("R3b", "RevolveY composes Move / remap / Move into a revolve about x = offset", 1)
     ctx.guarded(r, r_revolve_composition)
     r = ctx.rule("R3", "transforms apply the inverse of their documented action, on the axis their name says", 36)
